@@ -214,3 +214,31 @@ CLAIMED['C11'] = dict(
     note="Trusted: z3, vf/refsem.py, vf/symx.py; stubs of the expression layer as in C01.",
     technique="symbolic execution of the real Python (symbolic constants) + z3 structural and semantic equality per path",
     design_ref="DESIGN.md §3 C11")
+
+_IRTV = dict(level='translation_validation', engine='irsym+refsem')
+CLAIMED['C36'] = dict(_IRTV,
+    text="IRCFGSimplifierCommon and IRCFGSimplifierSSA are run on 70 (quick) / 840 (thorough) generated IR functions over 14 CFG "
+         "skeletons (diamonds, nested/irreducible/self loops, swap and lost-copy loops, pointer walks, store/reload, merged pointer "
+         "and save/restore patterns) and 12 functions assembled from x86_32 text; for every bounded path of the original z3 proves, "
+         "for all initial registers and memory under non-aliasing hypotheses, same exit, same final memory, no invented write "
+         "and same EAX/ESP (read through all_ssa_vars) in the simplified graph; models are replayed with an independent "
+         "concrete IR interpreter.",
+    note="Trusted: z3, vf/refsem.py, vf/irsym.py, vf/irprog.py. Programs are a fixed enumeration; paths bounded (40 blocks, 8 "
+         "visits). Two miscompilations on irreducible loops are recorded as known findings (C36-KF1/2).",
+    technique="translation validation: bounded symbolic execution of original and simplified IR + z3 equivalence per path",
+    design_ref="DESIGN.md §3 C36")
+CLAIMED['C37'] = dict(_IRTV,
+    text="SSADiGraph.transform + UnSSADiGraph on the same program set: structural SSA validity (single definition, definitions "
+         "dominate uses, phi arguments defined on the predecessor path) is checked on the SSA graph, and the out-of-SSA graph is "
+         "proved to have the same exit, final memory and EAX/ESP as the original for all initial states on every bounded path "
+         "(every program also dumps its registers to memory).",
+    note="Trusted: as C36. Out-of-SSA of non-conventional SSA (after expression propagation) is exercised by C36's SSA pipeline.",
+    technique="translation validation: bounded symbolic execution of original and out-of-SSA IR + z3 equivalence per path",
+    design_ref="DESIGN.md §3 C37")
+CLAIMED['C40'] = dict(_IRTV,
+    text="propagate_cst_expr on the same program set: from the state where every register equals its _init value the rewritten "
+         "graph is proved to compute the same 8 general registers, final memory, exit and no invented write as the original, "
+         "for all initial values and memory on every bounded path.",
+    note="Trusted: as C36. One miscompilation (memory-load expression propagated past a store) is recorded as C40-KF1.",
+    technique="translation validation: bounded symbolic execution of original and rewritten IR + z3 equivalence per path",
+    design_ref="DESIGN.md §3 C40")
